@@ -277,7 +277,7 @@ TASKS += [
     StructTask("COMBINE_HORIZONTAL_REGISTER", registry_check("hvsrpy.processing", "COMBINE_HORIZONTAL_REGISTER", EXPECTED_COMBINE)),
     StructTask("TRADITIONAL_PROCESSING_REGISTER", registry_check("hvsrpy.processing", "TRADITIONAL_PROCESSING_REGISTER", EXPECTED_TRADITIONAL)),
     StructTask("PROCESSING_METHODS", registry_check("hvsrpy.processing", "PROCESSING_METHODS", EXPECTED_PROCESSING)),
-    StructTask("dispatch", dispatch_check),
+    StructTask("dispatch", dispatch_check, textual=True),
 ]
 TASKS += lemmas()
 
